@@ -203,6 +203,8 @@ mutual
       match v with
       | .null => .ok
       | .obj kvs =>
+        -- every member of the list (the real code sees the members of the decoded Go
+        -- map, i.e. of `dedupLast kvs`: equal when no key is duplicated, see Props/C17 §8)
         worst (kvs.map (fun kv =>
           (check t kv.2).max (if isDirMap t && !legalName kv.1 then .error else .ok)))
       | _ => .error
@@ -429,5 +431,48 @@ mutual
         | none => true
         | some t' => noHole t t') && noHoleFields r fs'
 end
+
+mutual
+  /-- `dst ← src` is a pure narrowing: nowhere along the assignment does an
+  untyped `map` or a typed map take the place of a struct / typed map (those
+  destinations filter LESS than the source type did, so filtering at the
+  source type first is observable).  Hypothesis of `filter_narrow_chain`. -/
+  def pureNarrow : (dst src : Ty) → Bool
+    | .base d, src =>
+      match src with
+      | .struct _ _ => d != .map
+      | .tmap _ => d != .map
+      | _ => true
+    | .user _, _ => true
+    | .arr d, src =>
+      match src with
+      | .arr s => pureNarrow d s
+      | _ => true
+    | .tmap d, src =>
+      match src with
+      | .tmap s => pureNarrow d s
+      | .struct _ _ => false
+      | _ => true
+    | .struct _ fs, src =>
+      match src with
+      | .struct _ fs' => pureNarrowFields fs fs'
+      | _ => true
+  def pureNarrowFields : Fields → Fields → Bool
+    | .nil, _ => true
+    | .cons k t r, fs' =>
+      (match fs'.get k with
+        | none => true
+        | some t' => pureNarrow t t') && pureNarrowFields r fs'
+end
+
+/-- the two assignments that change the `(ArrayDim, MapDim)` shape of a
+`TypeId`: untyped `map` from a typed map, and a typed map from a struct
+(below equally many array dimensions).  Everywhere else assignable types have
+equal `dims` (`dims_eq_of_assignable`). -/
+def mapCoercion : (dst src : Ty) → Bool
+  | .arr d, .arr s => mapCoercion d s
+  | .base .map, .tmap _ => true
+  | .tmap _, .struct _ _ => true
+  | _, _ => false
 
 end Martian.Types
